@@ -124,68 +124,9 @@ def noPanic (_older : List Ev) : Ev → Bool
 /-- ... and releases every waiter (`hRev` = whole history, most recent first). -/
 def drainReleases (hRev : List Ev) : Bool := !drainSeen hRev || (waiting hRev).isEmpty
 
-/-- Everything except the three known-defect classes. -/
-def coreOk (cfg : Cfg) (h : List Ev) : Bool :=
-  scan verdictOk [] h && scan quotaOk [] h && scan (prioOk cfg) [] h && scan (ttlOk cfg) [] h
-
 /-- The whole property C06 on a history (oldest first). -/
 def holds (cfg : Cfg) (h : List Ev) : Bool :=
-  coreOk cfg h && scan (fifoOk cfg) [] h && scan (boundOk cfg) [] h && scan noPanic [] h &&
-  drainReleases h.reverse
-
-/-! ### Classifiers of the known defects (the excluded classes of the `_partial` theorems) -/
-
-/-- F06a: a FIFO inversion in which the overtaken request had been refused by the quota and pushed
-again (with a fresh timestamp) before. -/
-def f06aAt (cfg : Cfg) (older : List Ev) : Ev → Bool
-  | .done i true t =>
-    match infoOf older i with
-    | none => false
-    | some (p, _) => !(fifoBad cfg older i p t).isEmpty && (fifoBad cfg older i p t).all (wasRepushed older)
-  | _ => false
-
-def fifoOkOrF06a (cfg : Cfg) (older : List Ev) (e : Ev) : Bool := fifoOk cfg older e || f06aAt cfg older e
-
-/-- Events after (more recently than) `checked id` in `older`, if any. -/
-def sinceChecked : List Ev → Nat → Option (List Ev)
-  | [], _ => none
-  | .checked i :: rest, id => if i == id then some [] else (sinceChecked rest id).map (.checked i :: ·)
-  | e :: rest, id => (sinceChecked rest id).map (e :: ·)
-
-/-- F06b: the bound is exceeded by a request whose slot test and registration were separated by
-another arrival's slot test or registration (overlapping arrivals). -/
-def f06bAt (cfg : Cfg) (older : List Ev) : Ev → Bool
-  | .queued i p t =>
-    !boundOk cfg older (.queued i p t) &&
-    match sinceChecked older i with
-    | none => false
-    | some seg => seg.any fun | .checked _ => true | .queued _ _ _ => true | _ => false
-  | _ => false
-
-def boundOkOrF06b (cfg : Cfg) (older : List Ev) (e : Ev) : Bool := boundOk cfg older e || f06bAt cfg older e
-
-/-- F06c: the crash happens at shutdown while a request that already has its verdict is still in
-the watch list (its removal goroutine has not run). -/
-def f06cAt (older : List Ev) : Ev → Bool
-  | .panic =>
-    drainSeen older && older.any fun
-      | .done i _ _ => !wasUnwatched older i
-      | _ => false
-  | _ => false
-
-def noPanicOrF06c (older : List Ev) (e : Ev) : Bool := noPanic older e || f06cAt older e
-
-/-- The history is fine apart from instances of the listed defect classes. -/
-def holdsModuloFindings (cfg : Cfg) (h : List Ev) : Bool :=
-  coreOk cfg h && scan (fifoOkOrF06a cfg) [] h && scan (boundOkOrF06b cfg) [] h &&
-  scan noPanicOrF06c [] h && (drainReleases h.reverse || !scan noPanic [] h)
-
-/-- Which finding a failing history falls under (`none`: not a listed class). -/
-def finding (cfg : Cfg) (h : List Ev) : Option String :=
-  if holds cfg h then none
-  else if !holdsModuloFindings cfg h then none
-  else if !scan noPanic [] h then some "F06c"
-  else if !scan (boundOk cfg) [] h then some "F06b"
-  else some "F06a"
+  scan verdictOk [] h && scan quotaOk [] h && scan (prioOk cfg) [] h && scan (ttlOk cfg) [] h &&
+  scan (fifoOk cfg) [] h && scan (boundOk cfg) [] h && scan noPanic [] h && drainReleases h.reverse
 
 end LunarVerif.C06
